@@ -207,7 +207,8 @@ Proof. apply dag_frame_same; destruct st; reflexivity. Qed.
 Lemma rr_loop_frame x : forall is_ st, dag_frame st (fst (rr_loop st x is_)).
 Proof.
   induction is_ as [|i rest IH]; intros st; cbn [rr_loop]; [apply dag_frame_refl|].
-  destruct (get_round st i) as [tr|]; [|apply dag_frame_refl].
+  destruct (get_round st i) as [tr|];
+    [|destruct (lower_bound st) as [lb0|]; [destruct (i <=? lb0); [apply IH|apply dag_frame_refl]|apply dag_frame_refl]].
   destruct (get_peerset st i) as [tps|]; [|apply fail_frame].
   destruct (witnesses_decided tr tps) as [d tr'].
   set (st1 := st <| rounds := zset i tr' (rounds st) |>).
